@@ -113,7 +113,7 @@ def run(ctx):
     prog = ctx.prog
     ce = ConstEval(prog)
     spec = _load_spec()
-    ctx.clauses_decided = ["R1 one-based -> zero-based", "R2 column layouts", "R3 chemists' -> physicists'", "R4 triangular / block unpacking", "R5 permutation literals", "R6 labelled records attached by label", "R7 index maps of reshaping expressions (symbolic evaluation)", "R8 no placement by narrow counter fields", "R9 VASP coordinate-mode switch", "R10 deferred application of section data", "R11 Molden tag meaning (finite-domain evaluation)", "R12 block precedence in log scans", "R13 GRO box order (evaluated)", "R14 pass-through key collisions", "R15 MOL2 atom record fields (evaluated)", "R16 PDB ATOM record fields (evaluated)", "R17 WFN nucleus record (evaluated)", "R18 CHARMM crd record (evaluated)", "R19 Gaussian-log matrix blocks (evaluated)"]
+    ctx.clauses_decided = ["R1 one-based -> zero-based", "R2 column layouts", "R3 chemists' -> physicists'", "R4 triangular / block unpacking", "R5 permutation literals", "R6 labelled records attached by label", "R7 index maps of reshaping expressions (symbolic evaluation)", "R8 no placement by narrow counter fields", "R9 VASP coordinate-mode switch", "R10 deferred application of section data", "R11 Molden tag meaning (finite-domain evaluation)", "R12 block precedence in log scans", "R13 GRO box order (evaluated)", "R14 pass-through key collisions", "R15 MOL2 atom record fields (evaluated)", "R16 PDB ATOM record fields (evaluated)", "R17 WFN nucleus record (evaluated)", "R18 CHARMM crd record (evaluated)", "R19 Gaussian-log matrix blocks (evaluated)", "R20 grid data order (evaluated)"]
     ctx.clauses_declined = ["free-format and log-file parsers beyond R1/R3/R4/R5", "numerical accuracy of parsed values", "Fortran D exponents"]
 
     # ------------------------------------------------------------------ R2
@@ -595,6 +595,8 @@ def run(ctx):
     check_charmm_record(ctx, "R18")
     ctx.rule("R19", "Gaussian-log five-column blocks are unpacked to the right matrix elements, both triangles (evaluated)", "the mirror store dropped, the row-label column taken as a value, or the second block shifted")
     check_gaussianlog_blocks(ctx, "R19")
+    ctx.rule("R20", "volumetric data: every number of the file lands at its grid point (cube: C order; VASP: x fastest) (evaluated)", "densities transposed between x and z, or shifted by one after a ragged line")
+    check_grid_data_order(ctx, "R20")
 
 
 NARROW_POSITIVE = '''
@@ -1153,3 +1155,79 @@ def check_gaussianlog_blocks(ctx, rid):
         ctx.violate(rid, f"Gaussian-log matrix blocks, {bad}", f, f.node, construct=f"gaussianlog blocks: {bad}"[:160])
     else:
         ctx.ok(rid, "Gaussian-log matrix blocks: a 7 x 7 lower triangle in two five-column blocks (D exponents) is unpacked to the right elements and mirrored", f"{f.module.relpath}:{f.lineno}")
+
+
+def check_grid_data_order(ctx, rid):
+    """Volumetric data: which token of the file is which grid point.
+
+    Cube: x outermost, z innermost (C order), six numbers per line and a line break after every z-run -- the module's
+    writer is evaluated on a 2 x 3 x 4 grid of distinct numbers (block size 4, so lines are ragged) and its text is fed
+    to the reader.  VASP (CHGCAR / LOCPOT): x runs fastest (Fortran order) -- the reader's triple loop is evaluated on
+    a stream of 24 distinct numbers, five per line."""
+    from ..accessors import AccessorEval, Raised, Rec, TextSink
+    from ..symarr import NotSymbolic
+
+    prog = ctx.prog
+    licls = prog.cls("iodata.utils.LineIterator")
+    shape = (2, 3, 4)
+    data = np.arange(24, dtype=float).reshape(shape) * 1.5 + 0.25
+    # ---- cube
+    wr = prog.funcs.get("iodata.formats.cube._write_cube_data")
+    rd = prog.funcs.get("iodata.formats.cube._read_cube_data")
+    if wr is None or rd is None:
+        raise AnalysisError("cube: _write_cube_data / _read_cube_data not found")
+    try:
+        sink = TextSink()
+        AccessorEval(prog, None, limit=8000).run_free(wr, [sink, data, shape[2]], {})
+        lines = [ln + "\n" for ln in sink.text.split("\n") if ln.strip()]
+        lit = Rec(licls, filename="F", fh=iter(lines), lineno=0, stack=[])
+        cube = {"shape": np.array(shape)}
+        AccessorEval(prog, licls, limit=8000).run_free(rd, [lit, cube], {})
+        back = np.asarray(cube.get("data"), dtype=float)
+        if back.shape != shape or np.abs(back - data).max() > 1e-3:
+            idx = tuple(int(v) for v in np.argwhere(np.abs(back - data) > 1e-3)[0]) if back.shape == shape else None
+            ctx.violate(rid, f"cube data: a 2 x 3 x 4 grid written by the module's writer is read back with {'shape ' + str(back.shape) if idx is None else 'grid point ' + str(idx) + ' = ' + str(back[idx]) + ' instead of ' + str(data[idx])}", rd, rd.node, construct="cube data order")
+        elif max(len(ln.split()) for ln in lines) > 6:
+            ctx.violate(rid, "cube data: more than six numbers on a line", wr, wr.node, construct="cube data line length")
+        else:
+            ctx.ok(rid, f"cube data: 24 grid points in {len(lines)} (ragged) lines come back at their own (x, y, z)", f"{rd.module.relpath}:{rd.lineno}")
+    except Raised as exc:
+        ctx.violate(rid, f"cube data writer / reader raise {exc.args[0]} on a 2 x 3 x 4 grid", rd, rd.node, construct="cube data raises")
+    except NotSymbolic as exc:
+        raise AnalysisError(f"cube data writer / reader are outside the evaluation whitelist: {exc}") from exc
+    # ---- VASP
+    f = prog.funcs.get("iodata.formats.chgcar._load_vasp_grid")
+    if f is None:
+        raise AnalysisError("chgcar._load_vasp_grid not found")
+    loop = None
+    for st in f.body:
+        if isinstance(st, ast.For) and any(isinstance(x, ast.For) for x in ast.walk(st) if x is not st) and any(isinstance(x, ast.Call) and isinstance(x.func, ast.Attribute) and x.func.attr == "pop" for x in ast.walk(st)):
+            loop = st
+    if loop is None:
+        raise AnalysisError("chgcar._load_vasp_grid: the loop that fills the grid was not found")
+    tgt = next((x for x in ast.walk(loop) if isinstance(x, ast.Assign) and isinstance(x.targets[0], ast.Subscript) and isinstance(x.targets[0].value, ast.Name)), None)
+    wvar = next((x.func.value.id for x in ast.walk(loop) if isinstance(x, ast.Call) and isinstance(x.func, ast.Attribute) and x.func.attr == "pop" and isinstance(x.func.value, ast.Name)), None)
+    svar = next((x.value.id for x in ast.walk(loop.iter) if isinstance(x, ast.Subscript) and isinstance(x.value, ast.Name)), None)
+    if tgt is None or wvar is None or svar is None:
+        raise AnalysisError("chgcar._load_vasp_grid: grid loop has an unexpected shape")
+    gvar = tgt.targets[0].value.id
+    toks = [f"{0.5 + k:.5E}" for k in range(24)]
+    lines = [" ".join(toks[k:k + 5]) + "\n" for k in range(0, 24, 5)]
+    lit = Rec(licls, filename="F", fh=iter(lines), lineno=0, stack=[])
+    local = {f.posparams[0]: lit, svar: np.array(shape), wvar: [], gvar: np.zeros(shape)}
+    try:
+        ev = AccessorEval(prog, licls, limit=8000)
+        ev.module = f.module
+        ev._block([loop], local)
+    except Raised as exc:
+        ctx.violate(rid, f"VASP grid: the fill loop raises {exc.args[0]} on 24 numbers for a 2 x 3 x 4 grid", f, loop, construct="vasp grid raises")
+        return
+    except NotSymbolic as exc:
+        raise AnalysisError(f"chgcar grid loop is outside the evaluation whitelist: {exc}") from exc
+    g = np.asarray(local[gvar], dtype=float)
+    want = np.array([[[0.5 + (i0 + 2 * (i1 + 3 * i2)) for i2 in range(4)] for i1 in range(3)] for i0 in range(2)])
+    if np.abs(g - want).max() > 1e-9:
+        idx = tuple(int(v) for v in np.argwhere(np.abs(g - want) > 1e-9)[0])
+        ctx.violate(rid, f"VASP grid: grid point {idx} receives the number at position {int(round(g[idx] - 0.5))} of the file, VASP lists x fastest: position {int(round(want[idx] - 0.5))}", f, loop, construct="vasp grid order")
+    else:
+        ctx.ok(rid, "VASP grid: 24 numbers (five per line) fill the 2 x 3 x 4 grid with x running fastest", f"{f.module.relpath}:{loop.lineno}")
